@@ -125,7 +125,8 @@ Proof.
     + rewrite C1, C2, app_nil_r. split.
       * destruct GA as [GA|(d0 & f0 & l0 & Hd0 & Hs0)]; [left; assumption|].
         destruct (dgram_eq_dec d0 d) as [->|Hne].
-        -- left. specialize (C5 f0 l0 _ Hs0). lia.
+        -- left. destruct (C5 f0 l0 _ Hs0) as [Hle|Hle]; [lia|].
+           rewrite Forall_forall in Hlsub. pose proof (Hlsub _ Hs0) as Hq. cbn in Hq. lia.
         -- right. exists d0, f0, l0. split; [apply Hother; assumption|assumption].
       * intros Hp. destruct (GC Hp) as (D1 & (d0 & Hd0 & Hk0) & D3). split; [assumption|]. split.
         -- exists d0. split; [|assumption]. apply Hother; [assumption|]. intros ->.
@@ -367,7 +368,8 @@ Proof.
 Qed.
 
 (* ------------------------------------------------------------------ parked callers *)
-(* without deletions a caller is parked only while the acknowledgement test fails *)
+(* a caller is parked only while the acknowledgement test fails: the wait list is re-evaluated whenever
+   the test may have become true (an ACKNACK is accepted, the reader proxy is removed) *)
 Definition PInv (s : state) : Prop := ackd s = true -> npend s = 0%nat.
 
 Lemma PInv_ext s s' : PInv s -> s_waits s' = s_waits s -> (ackd s' = true -> ackd s = true) -> PInv s'.
@@ -418,11 +420,11 @@ Proof.
   apply IH. apply PInv_poke. apply PInv_deliver_dgram. eapply PInv_ext; [exact H|reflexivity|auto].
 Qed.
 
-Lemma PInv_step cf s a : live_act cf a = true -> PInv s -> PInv (fst (step cf s a)).
+Lemma PInv_step cf s a : PInv s -> PInv (fst (step cf s a)).
 Proof.
-  intros Ha H. unfold step.
+  intros H. unfold step.
   assert (H1 : PInv (fst (act cf s a))).
-  { destruct a; cbn [act]; try discriminate.
+  { destruct a; cbn [act].
     - pose proof (do_write_frame cf s key len sum) as (F1 & _ & _ & _ & _ & F6 & _).
       pose proof (do_write_spec cf s key len sum) as Hw.
       destruct (do_write cf s key len sum) as [s1 code]. cbn [fst snd] in *.
@@ -430,6 +432,7 @@ Proof.
       eapply PInv_ext; [exact H|assumption|]. unfold ackd. rewrite F1, W3. unfold is_acked.
       destruct (s_rp s) as [p|]; [|auto]. destruct (rp_rel p); [|auto]. cbn.
       intros E. apply negb_true_iff in E. apply Z.ltb_ge in E. apply negb_true_iff. apply Z.ltb_ge. lia.
+    - eapply PInv_ext; [exact H|reflexivity|auto].
     - eapply PInv_ext; [exact H|reflexivity|auto].
     - destruct (nth_error (s_net s) i); [|assumption]. cbn [fst]. apply PInv_deliver_dgram.
       eapply PInv_ext; [exact H|reflexivity|auto].
@@ -445,6 +448,8 @@ Proof.
         apply orb_false_iff in Eb. destruct Eb as [_ Eb]. destruct (s_rp s) eqn:Ep; [discriminate|].
         apply H. unfold ackd. rewrite Ep. reflexivity.
       + eapply PInv_ext; [exact H|reflexivity|auto].
+    - intros _. unfold npend; cbn. apply npend_drain.
+    - intros _. unfold npend; cbn. apply npend_drain.
     - destruct (is_acked (s_rp s) (s_last s)) eqn:Ea; cbn [fst].
       + intros _. unfold npend; cbn. rewrite filter_app, app_length. cbn. rewrite Nat.add_0_r. apply H. exact Ea.
       + intros Hs'. unfold ackd in Hs'. cbn in Hs'. congruence.
@@ -463,10 +468,10 @@ Proof.
   destruct (act cf s a) as [s1 o]. cbn [fst] in *. apply PInv_poke. assumption.
 Qed.
 
-Lemma PInv_run cf l : forallb (live_act cf) l = true -> forall s, PInv s -> PInv (run cf s l).
+Lemma PInv_run cf l : forall s, PInv s -> PInv (run cf s l).
 Proof.
-  induction l as [|a t IH]; intros Hl s H; [exact H|]. cbn in Hl. apply andb_prop in Hl. destruct Hl as [Ha Ht].
-  rewrite run_cons. apply IH; [assumption|]. apply PInv_step; assumption.
+  induction l as [|a t IH]; intros s H; [exact H|].
+  rewrite run_cons. apply IH. apply PInv_step; assumption.
 Qed.
 
 Lemma PInv_init : PInv init.
@@ -520,7 +525,20 @@ Proof.
     apply (H H256 Hn2 p r w Ep Hrel Er Ew). }
   split; [apply Hack|].
   assert (HP : PInv s2).
-  { unfold s2, s1. rewrite <- run_app. apply PInv_run; [|apply PInv_init].
-    rewrite forallb_app, Hcls. reflexivity. }
+  { unfold s2, s1. rewrite <- run_app. apply PInv_run. apply PInv_init. }
   apply HP. apply Hack.
+Qed.
+
+(* NO STALE WAITER, every configuration and EVERY schedule (faults, removals, deletion of the reader or of
+   its participant): whenever the acknowledgement test holds, nobody is parked in wait_for_acknowledgments *)
+Theorem wfa_no_stale_waiter cf sched :
+  let s := run cf init sched in ackd s = true -> npend s = 0%nat.
+Proof. intros s. apply (PInv_run cf sched init PInv_init). Qed.
+
+(* in particular once the reader proxy is gone (the matched reader or its participant was deleted) every
+   caller has been answered *)
+Theorem wfa_completes_after_deletion cf sched :
+  let s := run cf init sched in s_rp s = None -> npend s = 0%nat.
+Proof.
+  intros s Hp. apply (wfa_no_stale_waiter cf sched). unfold ackd. fold s. rewrite Hp. reflexivity.
 Qed.
